@@ -59,7 +59,7 @@ out.append('''
 | C07 | 20 | masks (Bool), index lists / face arrays (Int, forked), twin-vertex offsets (Real) | update_faces / update_vertices / remove_unreferenced / merge_vertices (positions, uv, normals, digits) / unique+nondegenerate / submesh / split / concatenate (incl. textured) / unmerge: corners, order, tags | 57 s |
 | C09 | 112 | history (op ids, node ids), edge matrices x -> s*x+t | every get() along every history of <= 3 mutations over 4 frames equals the dictionary forest | 94 s |
 | C10 | 27 | edge matrices (4 families), scale factors | bounds / extents / centroid / area / volume / triangles / dump / to_mesh, copy, scaled (uniform, per axis), rezero, apply_transform, +, subscene, chain with identity edge | 95 s |
-| C11 | 46 | triangle coordinates, plane offset | section / slice_plane sub-spaces (axis planes, catalogue oblique planes), on-vertex / on-edge sign patterns as paths | 12 s |
+| C11 | 49 | triangle coordinates, plane offset, origin, height | section / slice_plane sub-spaces (axis planes, catalogue oblique planes), on-vertex / on-edge sign patterns as paths; 3D part of mesh_multiplane with non-unit normals (projection stubbed) | 15 s |
 | C12 | 31 | ray origin / query point (triangle catalogue) and vice versa | ray-triangle hits = exhaustive definition, incl. a two-ray batch in one call (per-ray answers independent of the batch); closest point; nearby_faces candidates superset | 32 s |
 | C13 | 75 | run counts (any magnitude), dense values, indices | rle/brle codecs, splits at dtype maximum, encodings interchangeable under 7 single views (flips, swaps, cyclic transpose, flat, reshape) and 5 stacked views (transpose-transpose, transpose-flip-transpose, flip-transpose-flip, transpose-transpose with a 2-cycle and a 3-cycle, transpose-reshape-transpose); 6 known findings (mask / stripped / all-empty) | 22 s |
 | C14 | 2 | rectangle size / offset (Real); cut positions, directions, list order (forked) | traversal rebuilds every loop (area, perimeter, vertex set exact); shapely values per configuration on catalogue coordinates under 9 similarity transforms | 103 s |
@@ -173,12 +173,14 @@ for m in sorted(glob.glob('/verif/seeded/*/meta.json')):
     j=json.load(open(m))
     out.append("| %s | %s | %s |" % (os.path.basename(os.path.dirname(m)), esc(j['needs_to_manifest']), esc(j['detection'])))
 out.append('''
-Still missed in the quick tier: **C01-m1** (caught by the thorough tier only), and **C11-m3** (third round; missed by both
-tiers): it lives in `mesh_multiplane`, which the C11 check does not claim (section 9.3) - an honest gap recorded with the
-strengthening it needs in its meta.json; the check was not loosened.  **C12-m3** (first-hit selection with a `distance` array
-not filtered together with the hits) was missed at first because every C12 ray unit cast a single symbolic ray; it is caught
-by the new `ray-batch-two-triangles*` units (two rays in one call, the first starting at a symbolic fraction between the two
-crossings so that an oblique triangle just behind its origin is still a candidate).
+Still missed in the quick tier: **C01-m1** (caught by the thorough tier only).  Two third-round changes were missed at first
+and needed new units: **C11-m3** lives in `mesh_multiplane`, which was not claimed at all; its 3D part (dot products cached
+per vertex, offset by height, `mesh_plane` with cached dots) is now run on a symbolic triangle with a NON-unit normal, symbolic
+origin and height, with `plane_transform`, `linalg.inv` and `transform_points` stubbed (the 2D projection stays unclaimed; the
+stubs are listed in the unit's bounds).  **C12-m3** (first-hit selection with a `distance` array not filtered together with the
+hits) was missed because every C12 ray unit cast a single symbolic ray; it is caught by the new `ray-batch-two-triangles*` units
+(two rays in one call, the first starting at a symbolic fraction between the two crossings so that an oblique triangle just
+behind its origin is still a candidate).
 Third round (C05-m3, C06-m3, C13-m3, C19-m3): three caught as they were, C13-m3 (composition order of two lazy transposes)
 missed at first and caught after the encoding unit got stacked ('chain') views - which also drove the already known mask()
 defects through a second view (one new known-finding key).  Everything else is caught by the quick
